@@ -1259,9 +1259,9 @@ func runTrial(r *vlib.Run, mode string, trialNo int, rng *rand.Rand) (alive bool
 
 func body(r *vlib.Run) {
 	alive := true
-	n := r.N(8000, 200000)
+	n := r.N(8000, 120000)
 	if r.Race {
-		n = r.N(400, 4000)
+		n = r.N(400, 3000)
 	}
 	r.ForTrials("mix", n, func(trialNo int, rng *rand.Rand) {
 		if alive {
